@@ -1,1 +1,278 @@
-/-! # C16 — property theorems (stub: not built yet) -/
+import PymocaVerif.Lemmas.AliasMerge
+/-!
+# C16 — alias elimination merges variable metadata soundly
+
+Property theorems about `AliasMerge.merge`, the fold of the merge loop of `Model._simplify_once`
+(option `detect_aliases`) over the aliases of one canonical variable, in whatever order the Python
+set yields them and for any number of them (any chain length).  The number type `α` is any
+linear order with an involutive negation that reverses the order (`NegAnti`): every ordered field
+(`negAnti_field`) and the extended rationals of the driver (`negAnti_extRat`).
+
+An entry is *skipped* when the loop's `continue` fires ("handled in a previous pass"); in a
+first pass nothing is skipped (`fresh_not_skipped`).
+-/
+namespace PymocaVerif.AliasMerge
+
+section
+variable {α : Type} [LinearOrder α] [InvolutiveNeg α]
+
+omit [LinearOrder α] [InvolutiveNeg α] in
+/-- In a first `detect_aliases` pass (empty old relation) no alias is skipped. -/
+theorem fresh_not_skipped (neg : Bool) (a : Attrs α) : (fresh neg a).skipped = false := rfl
+
+example : (fresh true (⟨0, 1, 1, false, none, .float⟩ : Attrs Int)).skipped = false := rfl
+
+/-- **Bounds are the intersection.**  A value `x` of the canonical variable satisfies the merged
+    bounds iff it satisfies the canonical's own bounds and, for every merged alias, the alias' own
+    value `sign * x` satisfies the alias' bounds — for every number of aliases and every order. -/
+theorem bounds_are_intersection (h : NegAnti α) (c : Attrs α) (es : List (Entry α)) (x : α) :
+    inBox (merge c es) x ↔
+      inBox c x ∧ ∀ e ∈ es, e.skipped = false → inBox e.attrs (sgn e.neg x) :=
+  inBox_merge_iff h c es x
+
+example : inBox (merge (⟨-1, 5, 2, false, none, .float⟩ : Attrs Int)
+    [fresh true ⟨-3, 4, 10, true, some 7, .float⟩, fresh true ⟨0, 2, 0, false, none, .float⟩]) (-1) := by
+  decide
+
+/-- The merged lower bound is the largest of the sign-adjusted lower bounds, the merged upper
+    bound the smallest of the sign-adjusted upper bounds (the two halves of the intersection). -/
+theorem merged_bounds_extremal (c : Attrs α) (es : List (Entry α)) (x : α) :
+    ((merge c es).min ≤ x ↔ c.min ≤ x ∧ ∀ e ∈ es, e.skipped = false → lo e.neg e.attrs ≤ x) ∧
+    (x ≤ (merge c es).max ↔ x ≤ c.max ∧ ∀ e ∈ es, e.skipped = false → x ≤ hi e.neg e.attrs) :=
+  ⟨merge_min_le_iff c es x, le_merge_max_iff c es x⟩
+
+example : (merge (⟨-1, 5, 2, false, none, .float⟩ : Attrs Int)
+    [fresh true ⟨-3, 4, 10, true, some 7, .float⟩]).min = -1 ∧
+    (merge (⟨-1, 5, 2, false, none, .float⟩ : Attrs Int)
+    [fresh true ⟨-3, 4, 10, true, some 7, .float⟩]).max = 3 := by decide
+
+/-- **Negative aliases swap and negate.**  A negative alias contributes `[-max, -min]`, and `x`
+    lies in that interval iff `-x` lies in the alias' own `[min, max]`. -/
+theorem negation_swaps (h : NegAnti α) (a : Attrs α) (x : α) :
+    lo true a = -a.max ∧ hi true a = -a.min ∧
+      ((-a.max ≤ x ∧ x ≤ -a.min) ↔ (a.min ≤ -x ∧ -x ≤ a.max)) := by
+  refine ⟨rfl, rfl, ?_⟩
+  have := lo_hi_iff h true a x
+  simpa [lo, hi, sgn, inBox] using this
+
+example : lo true (⟨-3, 4, 10, true, some 7, .float⟩ : Attrs Int) = -4 := by decide
+
+/-- **Order independence.**  Bounds, nominal and fixed of the merged canonical do not depend on
+    the iteration order of the set of aliases. -/
+theorem merge_perm_invariant (c : Attrs α) {es es' : List (Entry α)} (p : es.Perm es') :
+    (merge c es).min = (merge c es').min ∧ (merge c es).max = (merge c es').max ∧
+    (merge c es).nominal = (merge c es').nominal ∧ (merge c es).fixed = (merge c es').fixed := by
+  refine ⟨?_, ?_, ?_, ?_⟩
+  · apply le_antisymm
+    · have := (merge_min_le_iff c es' (merge c es').min).1 le_rfl
+      exact (merge_min_le_iff c es _).2 ⟨this.1, fun e he => this.2 e (p.mem_iff.1 he)⟩
+    · have := (merge_min_le_iff c es (merge c es).min).1 le_rfl
+      exact (merge_min_le_iff c es' _).2 ⟨this.1, fun e he => this.2 e (p.mem_iff.2 he)⟩
+  · apply le_antisymm
+    · have := (le_merge_max_iff c es (merge c es).max).1 le_rfl
+      exact (le_merge_max_iff c es' _).2 ⟨this.1, fun e he => this.2 e (p.mem_iff.2 he)⟩
+    · have := (le_merge_max_iff c es' (merge c es').max).1 le_rfl
+      exact (le_merge_max_iff c es _).2 ⟨this.1, fun e he => this.2 e (p.mem_iff.1 he)⟩
+  · apply le_antisymm
+    · have := (merge_nominal_le_iff c es' (merge c es').nominal).1 le_rfl
+      exact (merge_nominal_le_iff c es _).2 ⟨this.1, fun e he => this.2 e (p.mem_iff.1 he)⟩
+    · have := (merge_nominal_le_iff c es (merge c es).nominal).1 le_rfl
+      exact (merge_nominal_le_iff c es' _).2 ⟨this.1, fun e he => this.2 e (p.mem_iff.2 he)⟩
+  · rw [merge_fixed_eq, merge_fixed_eq, p.any_eq]
+
+example : ([fresh true (⟨-3, 4, 10, true, some 7, .float⟩ : Attrs Int), fresh false ⟨0, 2, 0, false, none, .float⟩]).Perm
+    [fresh false ⟨0, 2, 0, false, none, .float⟩, fresh true ⟨-3, 4, 10, true, some 7, .float⟩] :=
+  List.Perm.swap _ _ _
+
+/-- **Nominal is the largest.**  The merged nominal bounds the canonical's and every merged
+    alias' nominal from above and is one of them. -/
+theorem nominal_is_max (c : Attrs α) (es : List (Entry α)) :
+    c.nominal ≤ (merge c es).nominal ∧
+    (∀ e ∈ es, e.skipped = false → e.attrs.nominal ≤ (merge c es).nominal) ∧
+    ((merge c es).nominal = c.nominal ∨
+      ∃ e ∈ es, e.skipped = false ∧ (merge c es).nominal = e.attrs.nominal) := by
+  have := (merge_nominal_le_iff c es (merge c es).nominal).1 le_rfl
+  exact ⟨this.1, this.2, merge_nominal_mem c es⟩
+
+example : (merge (⟨-1, 5, 2, false, none, .float⟩ : Attrs Int)
+    [fresh true ⟨-3, 4, 10, true, some 7, .float⟩, fresh false ⟨0, 2, 3, false, none, .float⟩]).nominal = 10 := by
+  decide
+
+/-- **Fixed if any is fixed.** -/
+theorem fixed_is_any (c : Attrs α) (es : List (Entry α)) :
+    (merge c es).fixed = true ↔
+      c.fixed = true ∨ ∃ e ∈ es, e.skipped = false ∧ e.attrs.fixed = true := by
+  rw [merge_fixed_eq]
+  simp [List.any_eq_true]
+
+example : (merge (⟨-1, 5, 2, false, none, .float⟩ : Attrs Int)
+    [fresh false ⟨0, 2, 3, false, none, .float⟩, fresh true ⟨-3, 4, 10, true, some 7, .float⟩]).fixed = true := by
+  decide
+
+/-- **Start kept or adopted.**  An explicit start of the canonical is kept whatever the aliases
+    say; without one the canonical takes the sign-adjusted explicit start of the first merged
+    alias (in iteration order) that has one, and keeps the default marker if none has. -/
+theorem start_kept_or_adopted (c : Attrs α) (es : List (Entry α)) :
+    (∀ v, c.start = some v → (merge c es).start = some v) ∧
+    (c.start = none → (merge c es).start = es.findSome? adopt) ∧
+    (c.start = none → ∀ w, (merge c es).start = some w →
+        ∃ e ∈ es, e.skipped = false ∧ ∃ v, e.attrs.start = some v ∧ w = sgn e.neg v) ∧
+    (c.start = none → ((merge c es).start = none ↔
+        ∀ e ∈ es, e.skipped = false → e.attrs.start = none)) := by
+  have key := merge_start_eq c es
+  refine ⟨fun v hv => by rw [key, hv], fun hn => by rw [key, hn], fun hn w hw => ?_, fun hn => ?_⟩
+  · rw [key, hn] at hw
+    obtain ⟨e, he, hw⟩ := List.exists_of_findSome?_eq_some hw
+    cases hs : e.skipped
+    · simp only [adopt, hs, Bool.false_eq_true, if_false, Option.map_eq_some_iff] at hw
+      obtain ⟨v, hv, rfl⟩ := hw
+      exact ⟨e, he, hs, v, hv, rfl⟩
+    · simp [adopt, hs] at hw
+  · rw [key, hn]
+    simp only [List.findSome?_eq_none_iff]
+    constructor
+    · intro hall e he hs
+      have := hall e he
+      simpa [adopt, hs] using this
+    · intro hall e he
+      cases hs : e.skipped
+      · simp [adopt, hs, hall e he hs]
+      · simp [adopt, hs]
+
+example : (merge (⟨-1, 5, 2, false, none, .float⟩ : Attrs Int)
+    [fresh false ⟨0, 2, 3, false, none, .float⟩, fresh true ⟨-3, 4, 10, true, some 7, .float⟩]).start = some (-7) ∧
+    (merge (⟨-1, 5, 2, false, some 1, .float⟩ : Attrs Int)
+    [fresh true ⟨-3, 4, 10, true, some 7, .float⟩]).start = some 1 := by decide
+
+/-- **Chains / nested classes, any sign.**  Absorbing, with sign `s`, an alias that already carries
+    the merged attributes of its own aliases `ms` gives the same bounds as absorbing all of them
+    directly with multiplied signs. -/
+theorem nested_bounds (h : NegAnti α) (c g : Attrs α) (s : Bool) (ms : List (Entry α))
+    (hms : ∀ m ∈ ms, m.oldMulti = false) (x : α) :
+    inBox (absorb c s (merge g ms)) x ↔
+      inBox (merge c (fresh s g :: ms.map (compose s))) x := by
+  rw [inBox_absorb_iff h, inBox_merge_iff h, inBox_merge_iff h]
+  constructor
+  · rintro ⟨hc, hg, hm⟩
+    refine ⟨hc, fun e he hs => ?_⟩
+    rcases List.mem_cons.1 he with rfl | he
+    · exact hg
+    · obtain ⟨m, hm', rfl⟩ := List.mem_map.1 he
+      have := hm m hm' (by simp [Entry.skipped, hms m hm'])
+      rw [sgn_sgn] at this
+      exact this
+  · rintro ⟨hc, hall⟩
+    refine ⟨hc, hall (fresh s g) (by simp) rfl, fun m hm hs => ?_⟩
+    have := hall (compose s m) (List.mem_cons_of_mem _ (List.mem_map_of_mem hm))
+      (by simp [compose, Entry.skipped, hms m hm])
+    rw [sgn_sgn]
+    exact this
+
+example : inBox (absorb (⟨-9, 9, 0, false, none, .float⟩ : Attrs Int) true
+    (merge ⟨-3, 4, 0, false, none, .float⟩ [fresh true ⟨0, 2, 0, false, none, .float⟩])) 1 ∧
+    (∀ m ∈ [fresh true (⟨0, 2, 0, false, none, .float⟩ : Attrs Int)], m.oldMulti = false) := by decide
+
+/-- **Two passes equal one, for a former canonical that enters positively.**  In a later pass
+    the former canonical `g` of an earlier class (carrying `merge g ms`) is absorbed and its old
+    aliases are skipped; the resulting bounds, nominal and fixed are those of merging `g` and all
+    of `ms` directly. -/
+theorem two_pass_equals_flat (h : NegAnti α) (c g : Attrs α) (ms es₁ es₂ : List (Entry α)) (x : α) :
+    let late : Entry α := ⟨false, true, true, merge g ms⟩
+    late.skipped = false ∧
+    (inBox (merge c (es₁ ++ late :: es₂)) x ↔ inBox (merge c (es₁ ++ fresh false g :: (ms ++ es₂))) x) ∧
+    ((merge c (es₁ ++ late :: es₂)).nominal = (merge c (es₁ ++ fresh false g :: (ms ++ es₂))).nominal) ∧
+    ((merge c (es₁ ++ late :: es₂)).fixed = (merge c (es₁ ++ fresh false g :: (ms ++ es₂))).fixed) := by
+  intro late
+  refine ⟨rfl, ?_, ?_, ?_⟩
+  · rw [inBox_merge_iff h, inBox_merge_iff h]
+    constructor
+    · rintro ⟨hc, hall⟩
+      refine ⟨hc, fun e he hs => ?_⟩
+      rcases List.mem_append.1 he with he | he
+      · exact hall e (List.mem_append_left _ he) hs
+      rcases List.mem_cons.1 he with rfl | he
+      · have := hall late (by simp) rfl
+        exact ((inBox_merge_iff h g ms _).1 this).1
+      rcases List.mem_append.1 he with he | he
+      · have := hall late (by simp) rfl
+        have := ((inBox_merge_iff h g ms _).1 this).2 e he hs
+        rw [sgn_sgn] at this
+        simpa [late] using this
+      · exact hall e (by simp [he]) hs
+    · rintro ⟨hc, hall⟩
+      refine ⟨hc, fun e he hs => ?_⟩
+      rcases List.mem_append.1 he with he | he
+      · exact hall e (List.mem_append_left _ he) hs
+      rcases List.mem_cons.1 he with rfl | he
+      · refine (inBox_merge_iff h g ms _).2 ⟨hall (fresh false g) (by simp) rfl, fun m hm hs' => ?_⟩
+        have := hall m (by simp [hm]) hs'
+        rw [sgn_sgn]
+        simpa [late] using this
+      · exact hall e (by simp [he]) hs
+  · apply le_antisymm
+    · rw [merge_nominal_le_iff]
+      have := (merge_nominal_le_iff c (es₁ ++ fresh false g :: (ms ++ es₂)) _).1 le_rfl
+      refine ⟨this.1, fun e he hs => ?_⟩
+      rcases List.mem_append.1 he with he | he
+      · exact this.2 e (List.mem_append_left _ he) hs
+      rcases List.mem_cons.1 he with rfl | he
+      · show (merge g ms).nominal ≤ _
+        rw [merge_nominal_le_iff]
+        exact ⟨this.2 (fresh false g) (by simp) rfl, fun m hm hs' => this.2 m (by simp [hm]) hs'⟩
+      · exact this.2 e (by simp [he]) hs
+    · rw [merge_nominal_le_iff]
+      have := (merge_nominal_le_iff c (es₁ ++ late :: es₂) _).1 le_rfl
+      have hl := (merge_nominal_le_iff g ms _).1 (this.2 late (by simp) rfl)
+      refine ⟨this.1, fun e he hs => ?_⟩
+      rcases List.mem_append.1 he with he | he
+      · exact this.2 e (List.mem_append_left _ he) hs
+      rcases List.mem_cons.1 he with rfl | he
+      · exact hl.1
+      rcases List.mem_append.1 he with he | he
+      · exact hl.2 e he hs
+      · exact this.2 e (by simp [he]) hs
+  · rw [merge_fixed_eq, merge_fixed_eq]
+    have hl : late.skipped = false := rfl
+    simp only [List.any_append, List.any_cons, hl, Bool.not_false, Bool.true_and]
+    show (c.fixed || (_ || ((merge g ms).fixed || _))) = _
+    rw [merge_fixed_eq]
+    simp [fresh, Entry.skipped, Bool.or_assoc]
+
+example : (merge (⟨-9, 9, 0, false, none, .float⟩ : Attrs Int)
+    [⟨false, true, true, merge ⟨-3, 4, 2, false, none, .float⟩ [fresh true ⟨0, 2, 7, true, none, .float⟩]⟩,
+     ⟨true, true, false, ⟨0, 2, 7, true, none, .float⟩⟩]).nominal = 7 := by decide
+
+/-- **The skip test reads the signed name.**  A former canonical that enters the new class with a
+    negative sign is skipped like an already handled alias: whatever it carries is ignored (this is
+    the hypothesis `two_pass_equals_flat` cannot do without; see finding C16-F2). -/
+theorem negative_former_canonical_skipped (c a : Attrs α) (es : List (Entry α)) :
+    merge c (⟨true, true, true, a⟩ :: es) = merge c es := rfl
+
+example : (merge (⟨-9, 9, 0, false, none, .float⟩ : Attrs Int) [⟨true, true, true, ⟨-1, 1, 5, true, some 2, .float⟩⟩]).max = 9 := by
+  decide
+
+end
+
+/-- The theorems hold for the numbers the driver computes with (extended rationals)… -/
+theorem bounds_are_intersection_extRat (c : Attrs ExtRat) (es : List (Entry ExtRat)) (x : ExtRat) :
+    inBox (merge c es) x ↔
+      inBox c x ∧ ∀ e ∈ es, e.skipped = false → inBox e.attrs (sgn e.neg x) :=
+  bounds_are_intersection negAnti_extRat c es x
+
+example : inBox (merge (⟨.ninf, .pinf, .fin 0, false, none, .float⟩ : Attrs ExtRat)
+    [fresh true ⟨.fin (-3), .pinf, .fin 1, false, none, .float⟩]) (.fin 3) := by decide
+
+/-- …and over every ordered field. -/
+theorem bounds_are_intersection_field {K : Type} [Field K] [LinearOrder K] [IsStrictOrderedRing K]
+    (c : Attrs K) (es : List (Entry K)) (x : K) :
+    inBox (merge c es) x ↔
+      inBox c x ∧ ∀ e ∈ es, e.skipped = false → inBox e.attrs (sgn e.neg x) :=
+  bounds_are_intersection negAnti_field c es x
+
+example : inBox (merge (⟨-1, 5, 2, false, none, .float⟩ : Attrs ℚ)
+    [fresh true ⟨-3, 4, 10, true, some 7, .float⟩]) (1/2) := by
+  rw [bounds_are_intersection_field]
+  simp [inBox, fresh, Entry.skipped, sgn]
+  norm_num
+
+end PymocaVerif.AliasMerge
